@@ -17,13 +17,29 @@
 
    idx[b] = set of candidates in CBlock.CandidateTrieDB (the stored totals are always the current votes),
    top[b] = CBlock.Top as a sequence of candidates (best first).
-   Dev = the named deviations switched on (RankingOps.tla); {} is the repaired design. *)
+   Dev = the named deviations switched on (RankingOps.tla); {} is the repaired design.
+
+   Vote magnitudes and the persisted candidate file.  The vote values 0..MaxVotes are abstract; vm (chosen in Init from
+   VMaps, never changed) is the vote map that sends them to real totals (RankingOps: MagOf gives the magnitude class =
+   length class of the persisted record).  With Persist = TRUE the model carries context.data's candidate part:
+     file = the slots in allocation order, each [c |-> candidate, fl |-> class of the record the slot was allocated
+            with, v |-> votes of the record now in the slot]
+   SetStableBlock(b) commits every block on the path to b, oldest first; a block writes the record of every account it
+   changed that has a candidate profile (an unregistered candidate is written with 0 votes): in place when the candidate
+   has a slot (the slot header {Pos, Len} gets the new length), else into the next slot.  Restart decodes the file slot
+   by slot with the header lengths, keeps the candidates whose account says isCandidate and ranks them by the totals OF
+   THE FILE.  fl is history: it makes "this record has another length than the one its slot was allocated with" part of
+   the state, per slot position, so that a restart from every such state is an edge of the graph (the binding replays
+   every edge).  Dev_StaleSlotLength (design-side negative control only; never an allowed deviation): a rewrite leaves
+   the header's Len as it was, so the decode of a record whose length class changed fails and the restarted node
+   publishes an empty list (first slot) or cannot start at all (later slot; modelled as the empty list, too). *)
 EXTENDS RankingOps, TLC
-CONSTANTS NC, K, MaxVotes, MaxLive, MaxSteps, RestartAnywhere, Touch, Dev
+CONSTANTS NC, K, MaxVotes, MaxLive, MaxSteps, RestartAnywhere, Touch, Dev, VMaps, Persist, MaxChg
+ASSUME Persist => VMaps \subseteq MagMaps
 Cand == 1..NC
 Rk == [c \in Cand |-> c]
-VARIABLES par, st, idx, top, stable, steps
-vars == <<par, st, idx, top, stable, steps>>
+VARIABLES par, st, idx, top, stable, steps, vm, file
+vars == <<par, st, idx, top, stable, steps, vm, file>>
 Live == DOMAIN st
 S0 == [c \in Cand |-> [r |-> 0, v |-> 0]]
 RECURSIVE AncSelf(_)
@@ -36,8 +52,27 @@ NewId == CHOOSE i \in 0..MaxLive : i \notin Live /\ \A j \in 0..i-1 : j \in Live
 Budget == MaxSteps = 0 \/ steps < MaxSteps
 Tick == IF MaxSteps = 0 THEN 0 ELSE steps + 1
 
+\* ---- the persisted candidate file
+Mag(v) == MagOf(vm, v, MaxVotes)
+Slotted(f) == {f[i].c : i \in 1..Len(f)}
+RECURSIVE PathTo(_)
+PathTo(b) == IF b = stable THEN <<>> ELSE Append(PathTo(par[b]), b)               \* CollectToParent(LastConfirm), oldest first
+Written(x) == {c \in Cand : st[x][c] # st[par[x]][c] /\ st[x][c].r # 0}           \* filterCandidates(Collect(height))
+CommitOne(f, x) ==                                                                \* blockCommit(x) -> Context.SetCandidates + Flush
+  LET W == Written(x)
+      upd == [i \in 1..Len(f) |-> IF f[i].c \in W THEN [f[i] EXCEPT !.v = st[x][f[i].c].v] ELSE f[i]]
+      fresh == SortBy(W \ Slotted(f), [c \in Cand |-> 0], Rk)
+  IN upd \o [i \in 1..Len(fresh) |-> [c |-> fresh[i], fl |-> Mag(st[x][fresh[i]].v), v |-> st[x][fresh[i]].v]]
+RECURSIVE CommitAll(_, _)
+CommitAll(f, p) == IF p = <<>> THEN f ELSE CommitAll(CommitOne(f, Head(p)), Tail(p))
+HeaderLen(s) == IF "Dev_StaleSlotLength" \in Dev THEN s.fl ELSE Mag(s.v)            \* CandidatePos.Len in the slot header
+Readable == \A i \in 1..Len(file) : HeaderLen(file[i]) = Mag(file[i].v)            \* CandidateCache.Decode succeeds
+Loaded == IF Readable THEN Slotted(file) ELSE {}
+FileVotes == [c \in Cand |-> IF c \in Slotted(file) THEN file[CHOOSE i \in 1..Len(file) : file[i].c = c].v ELSE 0]
+
 Init == /\ par = <<>> /\ st = (0 :> S0) /\ idx = (0 :> {}) /\ top = (0 :> <<>>)
         /\ stable = 0 /\ steps = 0
+        /\ vm \in VMaps /\ file = <<>>
 
 Block(p, nv, t) ==
   LET sp == st[p]
@@ -46,25 +81,28 @@ Block(p, nv, t) ==
       b == NewId
   IN /\ p \in Live /\ Cardinality(Live) < MaxLive /\ Budget
      /\ Legal(sp, nv, t)
+     /\ Cardinality(chg) <= MaxChg                                                  \* bound: candidates whose votes change in one block
      /\ par' = (b :> p) @@ par
      /\ st' = (b :> sn) @@ st
      /\ idx' = (b :> idx[p] \cup chg) @@ idx
      /\ top' = (b :> CodeTop(Dev, K, Rk, top[p], idx[p] \cup chg, sp, sn, chg, Unreg(sp, sn, t))) @@ top
-     /\ steps' = Tick /\ UNCHANGED stable
+     /\ steps' = Tick /\ UNCHANGED <<stable, vm, file>>
 
 Stable(b) ==
   /\ b \in Live \ {stable} /\ Budget
   /\ LET keep == Desc(b)
      IN /\ par' = Restrict(par, keep \ {b})
         /\ st' = Restrict(st, keep) /\ idx' = Restrict(idx, keep) /\ top' = Restrict(top, keep)
-  /\ stable' = b /\ steps' = Tick
+  /\ file' = IF Persist THEN CommitAll(file, PathTo(b)) ELSE file
+  /\ stable' = b /\ steps' = Tick /\ UNCHANGED vm
 
 Restart ==
   /\ Budget /\ (RestartAnywhere \/ Live = {stable})
   /\ par' = <<>> /\ st' = Restrict(st, {stable})
   /\ idx' = (stable :> IF "Dev_RestartForgetsIndex" \in Dev THEN {} ELSE {c \in Cand : st[stable][c].r # 0})
-  /\ top' = (stable :> FullSort(st[stable], Rk, K))
-  /\ steps' = Tick /\ UNCHANGED stable
+  /\ top' = (stable :> IF Persist THEN Rank(Loaded \cap Registered(st[stable]), FileVotes, Rk, K)
+                        ELSE FullSort(st[stable], Rk, K))
+  /\ steps' = Tick /\ UNCHANGED <<stable, vm, file>>
 
 \* bound sets are constants so that TLC labels every edge with the instantiated action
 Ids == 0..MaxLive-1
@@ -80,4 +118,9 @@ RestartKeepsTop == [][stable' = stable => top'[stable] = top[stable]]_vars
 TypeOK == /\ stable \in Live /\ DOMAIN idx = Live /\ DOMAIN top = Live /\ DOMAIN par = Live \ {stable}
           /\ \A b \in Live : \A c \in Cand : (st[b][c].r = 1) = (st[b][c].v > 0)
           /\ \A b \in Live : Len(top[b]) <= K
+          /\ vm \in VMaps
+\* the file holds exactly the candidates that ever registered on the stable chain, once each, with their current totals
+FileOK == Persist => /\ Slotted(file) = {c \in Cand : st[stable][c].r # 0}
+                     /\ Len(file) = Cardinality(Slotted(file))
+                     /\ \A i \in 1..Len(file) : file[i].v = st[stable][file[i].c].v /\ file[i].fl \in 1..BoundLo[Len(BoundLo)] + 1
 ====
